@@ -6,7 +6,9 @@ from ..gtlib import Obs, jarr
 from . import common as C, lin
 
 PROP = "C20"
-PROPS_FILE = "../trunc/C20.v"
+PROPS_FILE = "trunc/C20.v"
+TRUSTED_EXTRA = ["standard-library axioms of the classical real numbers used by trunc/C20*.v (via Reals / Coquelicot): ClassicalDedekindReals.sig_not_dec, sig_forall_dec, FunctionalExtensionality.functional_extensionality_dep, Classical_Prop.classic",
+                 "the cdf values fed to the executable model come from math.erfc (seam); the theorems treat the cdf as any function with increments RInt phiR"]
 RULE = ("cases = one-dimensional measures (R in 1..3, rational standard deviation s so that the standardised limits are rational, "
         "rational information vector and log-constant) truncated to two-sided, lower-only and upper-only intervals including "
         "far-tail ones (|alpha| up to 8 standard deviations), k in 0..6; evaluated inside / outside / exactly on the limits; "
